@@ -22,7 +22,9 @@ def _modified_b64decode(src: bytes) -> str:
     # Inspired by Twisted Python's implementation:
     #   https://twistedmatrix.com/trac/browser/trunk/LICENSE
     src_utf7 = b'+%b-' % src.replace(b',', b'/')
-    return src_utf7.decode('utf-7')
+    ret = src_utf7.decode('utf-7')
+    ret.encode('utf-16-be')  # a lone surrogate is not a character
+    return ret
 
 
 def modutf7_encode(data: str) -> bytes:
